@@ -35,6 +35,7 @@ FlagsBad(o) ==
   (IF o.islinear = (In.meth.name = "linear") THEN {} ELSE {"is-linear"}) \cup
   (IF o.size = NN THEN {} ELSE {"size"}) \cup
   (IF o.dup = 0 THEN {} ELSE {"duplicate-or-out-of-range-entries"}) \cup
+  (IF o.bad = 0 THEN {} ELSE {"non-finite-or-huge-value"}) \cup
   (IF o.ft \in {"f64", "f32"} THEN {} ELSE {"float-type"}) \cup
   (IF o.hastgt => o.tgt = [i \in 1..NN |-> 99 + i] THEN {} ELSE {"targets"})
 
